@@ -3,20 +3,22 @@
 (* size: every dividend of L words and every non-zero divisor of L words    *)
 (* (ct), every divisor with exactly YC significant words (vartime).         *)
 EXTENDS KnuthD, Naturals, TLC
-CONSTANTS L, YC, Mode                 \* Mode: "ct" | "vartime" | "limb"
+CONSTANTS L, YC, Mode                 \* Mode: "ct" | "vartime" | "limb" | "remwide" (dividend of 2L words, divisor of L words with YC significant)
 VARIABLES n, d, out
 
 NatLimbs(k) == [1..k -> 0..(2 ^ W - 1)]
 ToBN(x) == [i \in 1..Len(x) |-> FromInt(x[i])]
 NonZeroSeq(x) == \E i \in 1..Len(x) : x[i] # 0
 
-Init == /\ n \in NatLimbs(L)
+Init == /\ n \in NatLimbs(IF Mode = "remwide" THEN 2 * L ELSE L)
         /\ d \in IF Mode = "ct" THEN {dd \in NatLimbs(L) : NonZeroSeq(dd)}
-                 ELSE IF Mode = "vartime" THEN {dd \in NatLimbs(YC) : dd[YC] # 0}
+                 ELSE IF Mode \in {"vartime", "remwide"} THEN {dd \in NatLimbs(YC) : dd[YC] # 0}
                  ELSE {dd \in NatLimbs(1) : dd[1] # 0}
         /\ out = <<>>
 Run == IF Mode = "ct" THEN DivRemCT(ToBN(n), ToBN(d), L)
        ELSE IF Mode = "vartime" THEN DivRemVartime(ToBN(n), ToBN(d), L, YC)
+       ELSE IF Mode = "remwide" THEN LET o == RemWideVartime(ToBN(SubSeq(n, 1, L)), ToBN(SubSeq(n, L + 1, 2 * L)), ToBN(d) \o [i \in 1..(L - YC) |-> Zero], L)
+                                     IN [q |-> Div(Val(ToBN(n)), Val(ToBN(d))), r |-> o.r, path |-> o.path]      \* no quotient is produced
        ELSE LET o == DivRemLimb(ToBN(n), FromInt(d[1])) IN [q |-> o.q, r |-> o.r, path |-> <<>>]
 Next == out = <<>> /\ out' = Run /\ UNCHANGED <<n, d>>
 Spec == Init /\ [][Next]_<<n, d, out>>
